@@ -10,6 +10,16 @@ fn one<W: Write>(c: &mut Cases<W>, bytes: &[u8], class: &str) {
         Ok(Err(e)) => format!("err {}", err_class(&e)),
         Err(_) => "panic".to_string(),
     };
+    // the same through a source that serves 1..3 bytes per read call: the result must not depend on it
+    let max_read = 1 + bytes.len() % 3;
+    let short = match catch(|| Reader::new(crate::c_hist::Counting::short(bytes.to_vec(), max_read)).map(|r| (r.file_version() as u32, r.compression_type() as u8, r.len()))) {
+        Ok(Ok((v, codec, n))) => format!("ok {} {} {}", v, codec, n),
+        Ok(Err(e)) => format!("err {}", err_class(&e)),
+        Err(_) => "panic".to_string(),
+    };
+    if short != res {
+        println!("DIRECT fail open of a {}-byte string through a source serving {} byte(s) per read: {} (whole reads: {})", bytes.len(), max_read, short, res);
+    }
     c.begin("open");
     // only the last 64 bytes matter to open; keep the length
     let tail = if bytes.len() > 64 { &bytes[bytes.len() - 64..] } else { bytes };
